@@ -9,6 +9,7 @@ CONSTANTS
   Ops = {1, 2, 3, 4}
   MaxInFlight = 3
   AuctionImpl = "intended"
+  Resolution = "locked"
   MaxRounds = 0
-INVARIANTS TypeOKC12 KeepsLastGood FallbackWhenNone AnswersRight LockBalanced LockAccounting
+INVARIANTS TypeOKC12 KeepsLastGood FallbackWhenNone AnswersRight AnswersInForce LockBalanced LockAccounting
 CHECK_DEADLOCK FALSE
